@@ -104,6 +104,24 @@ pub fn intern_across_collection(rooted: bool) -> bool {
     && (!rooted || same_obj(x, y))
 }
 
+/// cheaper halves of intern_across_collection (which exceeds 45 min in CBMC): eviction of an unrooted string / retention of a rooted one
+pub fn intern_evicts_unrooted() -> bool {
+  let mut gc = ManuallyDrop::new(Allocator::default());
+  gc.verif_set_gc_count(9);
+  let _x = gc.manage_str("ab", &NO_GC);
+  gc.collect_garbage(&Roots::<1> { boxes: [None], strs: [None] });
+  let st = gc.verif_stats();
+  st.intern_len == 0 && st.obj_len == 0 && st.bytes_allocated == 0
+}
+pub fn intern_keeps_rooted() -> bool {
+  let mut gc = ManuallyDrop::new(Allocator::default());
+  gc.verif_set_gc_count(9);
+  let x = gc.manage_str("ab", &NO_GC);
+  gc.collect_garbage(&Roots::<1> { boxes: [None], strs: [Some(x)] });
+  let st = gc.verif_stats();
+  st.intern_len == 1 && st.obj_len == 1 && &*x == "ab" && gc.verif_intern_consistent()
+}
+
 #[cfg(kani)]
 mod proofs {
   use super::*;
@@ -144,6 +162,18 @@ mod proofs {
   #[kani::unwind(10)]
   #[kani::stub(<ObjectHandle as std::ops::Drop>::drop, drop_stub)]
   fn o09_intern_twice() { assert!(intern_twice()); }
+
+  #[kani::proof]
+  #[kani::unwind(10)]
+  #[kani::stub(<ObjectHandle as std::ops::Drop>::drop, drop_stub)]
+  #[kani::stub(<laythe_core::ObjectRef as Trace>::trace, no_children)]
+  fn o09_intern_evicts_unrooted() { assert!(intern_evicts_unrooted()); }
+
+  #[kani::proof]
+  #[kani::unwind(10)]
+  #[kani::stub(<ObjectHandle as std::ops::Drop>::drop, drop_stub)]
+  #[kani::stub(<laythe_core::ObjectRef as Trace>::trace, no_children)]
+  fn o09_intern_keeps_rooted() { assert!(intern_keeps_rooted()); }
 
   #[kani::proof]
   #[kani::unwind(10)]
